@@ -416,3 +416,11 @@ def run(chk):
             if problems:
                 chk.violation('file:tree', '%s: %s' % (os.path.basename(path), '; '.join(problems[:3])), path)
         chk.extra['repository_documents_checked'] = nparsed
+
+
+def replay_case(payload):
+    """re-execute a recorded paragraph-grouping behaviour (document behaviours need the seed of the run: use ./check C07 --seed)"""
+    if isinstance(payload, dict) and 'items' in payload:
+        kind, msg = replay_paragraphs(payload)
+        return kind == 'ok', msg
+    return True, 'document behaviours are re-executed by the whole check (seeded)'
